@@ -38,7 +38,8 @@ REACH_PROBES = ["recycled_power_flow_executed", "batch_read_path_taken", "only_v
                 "multi_index_controller", "tap_controller_in_loop", "subset_logged_in_non_table_order",
                 "dc_recycled_power_flow_executed", "variable_removed_and_requested_again",
                 "non_contiguous_or_unsorted_element_index", "variable_of_empty_element_table_requested",
-                "second_run_with_the_same_output_writer"]
+                "second_run_with_the_same_output_writer", "controller_out_of_service",
+                "time_steps_from_data_source"]
 
 CTRL_TARGETS = [("load", "p_mw"), ("load", "q_mvar"), ("load", "scaling"), ("sgen", "p_mw"), ("sgen", "q_mvar"),
                 ("sgen", "scaling"), ("storage", "p_mw"), ("gen", "p_mw"), ("gen", "vm_pu"), ("ext_grid", "vm_pu"),
@@ -86,7 +87,7 @@ def warm():
 
 def generate(rng, idx, tier):
     n_steps = rng.randint(3, 10)
-    form = rng.choice(["range", "list", "shuffled", "sparse", "range"])
+    form = rng.choice(["range", "list", "shuffled", "sparse", "range", "array", "none"])
     cfg = {"template": c08._wchoice(rng, TEMPLATES), "n_steps": n_steps, "form": form}
     ol = [{"op": "template", "name": cfg["template"]}]
     if rng.random() < 0.3:
@@ -110,7 +111,8 @@ def generate(rng, idx, tier):
                    "factors": [round(rng.uniform(0.5, 1.5), 3) for _ in range(12)],
                    "ints": [rng.randint(-2, 2) for _ in range(12)],
                    "recycle": True if batchy else rng.choice([True, True, True, False]),
-                   "diverge_at": rng.choice([None, None, None, rng.randrange(12)])})
+                   "diverge_at": rng.choice([None, None, None, rng.randrange(12)]),
+                   "ctrl_in_service": rng.random() >= 0.08})
     if not batchy and rng.random() < 0.3:
         ol.append({"op": "tap_control", "kind": rng.choice(["discrete", "continuous"]), "row": rng.randrange(100),
                    "vm_set": round(rng.uniform(0.98, 1.03), 3), "half": rng.choice([0.02, 0.015])})
@@ -259,6 +261,11 @@ def build_time_steps(op):
     if form == "sparse":
         ts = list(range(0, N_PROFILE, 2))[:max(2, n // 2 + 1)]
         return ts, ts
+    if form == "array":
+        return np.arange(1, n + 1), list(range(1, n + 1))
+    if form == "none":
+        # all time steps of the first controller's data source (every profile has N_PROFILE steps)
+        return None, list(range(N_PROFILE))
     rr = random.Random(op["perm_seed"])
     ts = list(range(n))
     rr.shuffle(ts)
@@ -376,7 +383,9 @@ def execute(ep, ctx):
                 scale = op["scale"] if var in ("p_mw", "q_mvar") else 1.0
                 ConstControl(net, el, var, element_index=rows if multi else rows[0],
                              profile_name=names if multi else names[0], data_source=ds,
-                             scale_factor=scale, recycle=op["recycle"])
+                             scale_factor=scale, recycle=op["recycle"], in_service=op.get("ctrl_in_service", True))
+                if not op.get("ctrl_in_service", True):
+                    ctx.probe("controller_out_of_service")
                 ctrl_desc.append(f"{el}.{var}")
                 if el == "line":
                     ctx.probe("line_parameter_controlled")
@@ -508,6 +517,13 @@ def _exec_run(net, op, ow_op, i, ctx, ctrl_desc, tmpdir, owm):
     from pandapower.timeseries import run_timeseries
     from pandapower.auxiliary import LoadflowNotConverged, ControllerNotConverged, NetCalculationNotConverged
     ts_arg, ts_list = build_time_steps(op)
+    if ts_arg is None:
+        # time_steps=None takes the steps from the data source of controller 0: only if that one has a data source
+        first = net.controller.object.at[0] if len(net.controller) and 0 in net.controller.index else None
+        if getattr(first, "data_source", None) is None:
+            ts_arg, ts_list = range(op["n_steps"]), list(range(op["n_steps"]))
+        else:
+            ctx.probe("time_steps_from_data_source")
     # replica BEFORE the run: same element state, own controllers and data sources
     replica = copy.deepcopy(net)
     if "output_writer" in replica:
@@ -618,7 +634,9 @@ def _exec_run(net, op, ow_op, i, ctx, ctrl_desc, tmpdir, owm):
                 it = 0
             vm = fresh.res_bus.vm_pu.values
             vm = vm[~np.isnan(vm)]
-            ref_abnormal[t] = it > 6 or (len(vm) and (vm.min() < 0.85 or vm.max() > 1.15))
+            # (a stressed step: from its solution the recycled next step may converge to the low-voltage solution of
+            # the next state - seen with 6 iterations / 0.855 p.u. followed by a 9-iteration low-voltage solution)
+            ref_abnormal[t] = it > 5 or (len(vm) and (vm.min() < 0.9 or vm.max() > 1.1))
         if e is not None:
             ref_exc_types.add(type(e).__name__)
         if e is None:
